@@ -20,19 +20,44 @@ jobs = int(args[args.index('--jobs') + 1]) if '--jobs' in args else 4
 tier = args[args.index('--tier') + 1] if '--tier' in args else 'quick'
 only = args[args.index('--only') + 1].split(',') if '--only' in args else None
 BENIGN = '--benign' in args
+CROSS = '--cross' in args          # with --benign: run every OTHER check that exercises a file the patch touches
 KIND = 'benign' if BENIGN else 'seeded'
+# which checks exercise which source files (prefix match on the path in the diff)
+USES = {
+    'lbry/blob/blob_file.py': 'C01 C02 C10 C18 C19', 'lbry/blob/writer.py': 'C01 C02 C10', 'lbry/blob/blob_manager.py': 'C18 C19 C10 C02',
+    'lbry/blob/disk_space_manager.py': 'C19', 'lbry/blob_exchange/': 'C10', 'lbry/extras/daemon/storage.py': 'C18 C19 C02 C01',
+    'lbry/stream/descriptor.py': 'C02 C18 C19', 'lbry/dht/protocol/routing_table.py': 'C11 C12 C17', 'lbry/dht/protocol/data_store.py': 'C12 C17',
+    'lbry/dht/protocol/protocol.py': 'C12 C17 C11', 'lbry/dht/protocol/iterative_find.py': 'C12', 'lbry/dht/serialization/': 'C17 C12',
+    'lbry/dht/peer.py': 'C11 C12 C17', 'lbry/dht/node.py': 'C12', 'lbry/wallet/account.py': 'C03 C06 C09 C13 C14', 'lbry/wallet/bip32.py': 'C04 C06 C13 C03',
+    'lbry/wallet/transaction.py': 'C03 C04 C05 C09 C14 C15', 'lbry/wallet/script.py': 'C15 C03 C04 C05 C09', 'lbry/wallet/coinselection.py': 'C03 C14',
+    'lbry/wallet/database.py': 'C03 C09 C14 C06', 'lbry/wallet/ledger.py': 'C03 C08 C09 C14', 'lbry/wallet/header.py': 'C07 C08 C09',
+    'lbry/wallet/wallet.py': 'C13', 'lbry/wallet/dewies.py': 'C20', 'lbry/wallet/util.py': 'C20 C03', 'lbry/wallet/bcd_data_stream.py': 'C05 C04 C15',
+    'lbry/wallet/mnemonic.py': 'C06 C13', 'lbry/wallet/hash.py': 'C13 C06 C04', 'lbry/crypto/': 'C06 C13 C04', 'lbry/schema/': 'C16 C04 C03',
+}
 
 
-def one(seed):
-    prop = seed.split('-')[0]
+def related(seed):
+    own = seed.split('-')[0]
+    props = set()
+    for ln in open(os.path.join(ROOT, KIND, seed, 'patch.diff')):
+        if ln.startswith('+++ b/'):
+            f = ln[6:].strip()
+            for pre, ps in USES.items():
+                if f.startswith(pre):
+                    props |= set(ps.split())
+    return sorted(props - {own})
+
+
+def one(job):
+    seed, prop = job
     patch = os.path.join(ROOT, KIND, seed, 'patch.diff')
-    wt = tempfile.mkdtemp(prefix=f'wt-mx-{seed}-')
+    wt = tempfile.mkdtemp(prefix=f'wt-mx-{seed}-{prop}-')
     os.rmdir(wt)
     subprocess.run(['git', '-C', '/repo', 'worktree', 'add', '--detach', wt, 'HEAD'], check=True, capture_output=True)
     try:
         r = subprocess.run(['git', '-C', wt, 'apply', patch], capture_output=True, text=True)
         if r.returncode != 0:
-            return seed, {'exit': None, 'error': 'patch does not apply: ' + r.stderr[-300:]}
+            return job, {'exit': None, 'error': 'patch does not apply: ' + r.stderr[-300:]}
         env = dict(os.environ, VERIF_REPO=wt, VERIF_EVIDENCE_DIR=os.path.join(wt, '.evidence'))
         r = subprocess.run([os.path.join(ROOT, 'check'), prop, '--tier', tier], env=env, capture_output=True, text=True)
         keys = {}
@@ -41,7 +66,7 @@ def one(seed):
         out = {'exit': r.returncode, 'keys': keys}
         if r.returncode == 2:
             out['error'] = (r.stdout[-600:] + r.stderr[-600:])
-        return seed, out
+        return job, out
     finally:
         subprocess.run(['git', '-C', '/repo', 'worktree', 'remove', '--force', wt], capture_output=True)
 
@@ -54,8 +79,9 @@ def main():
     path = os.path.join(ROOT, KIND, 'MATRIX.json')
     matrix = json.load(open(path)) if os.path.exists(path) else {}
     bad = 0
+    work = [(s_, p_) for s_ in seeds for p_ in related(s_)] if CROSS else [(s_, s_.split('-')[0]) for s_ in seeds]
     with concurrent.futures.ThreadPoolExecutor(jobs) as ex:
-        for seed, out in ex.map(one, seeds):
+        for (seed, prop), out in ex.map(one, work):
             meta = json.load(open(os.path.join(ROOT, KIND, seed, 'meta.json')))
             expected = meta.get('expected', 'quiet' if BENIGN else 'caught')
             if BENIGN:
@@ -63,8 +89,8 @@ def main():
             else:
                 verdict = 'caught' if out['exit'] == 1 else 'MISSED' if out['exit'] == 0 else 'MACHINERY'
             out['verdict'], out['tier'] = verdict, tier
-            matrix[seed] = out
-            print(f'{seed}: {verdict} (expected {expected}) {sorted(out.get("keys", {}))[:4]}', flush=True)
+            matrix[seed if prop == seed.split('-')[0] else f'{seed}@{prop}'] = out
+            print(f'{seed}@{prop}: {verdict} (expected {expected}) {sorted(out.get("keys", {}))[:4]}', flush=True)
             if verdict != expected and expected in ('caught', 'quiet'):
                 bad += 1
     json.dump(matrix, open(path, 'w'), indent=1, sort_keys=True)
